@@ -136,9 +136,9 @@ Properties_C04.vos Properties_C04.vok Properties_C04.required_vos: Properties_C0
 Properties_C20.vo Properties_C20.glob Properties_C20.v.beautified Properties_C20.required_vo: Properties_C20.v Base.vo Fields.vo SrcFacts.vo Msg.vo Cache.vo CacheSpec.vo CacheProofs.vo Values.vo ValuesProofs.vo
 Properties_C20.vio: Properties_C20.v Base.vio Fields.vio SrcFacts.vio Msg.vio Cache.vio CacheSpec.vio CacheProofs.vio Values.vio ValuesProofs.vio
 Properties_C20.vos Properties_C20.vok Properties_C20.required_vos: Properties_C20.v Base.vos Fields.vos SrcFacts.vos Msg.vos Cache.vos CacheSpec.vos CacheProofs.vos Values.vos ValuesProofs.vos
-Properties_C19.vo Properties_C19.glob Properties_C19.v.beautified Properties_C19.required_vo: Properties_C19.v Base.vo Fields.vo SrcFacts.vo Msg.vo SrcDecisions.vo Cache.vo Sim.vo Browser.vo BrowserSpec.vo BrowserProofs.vo
-Properties_C19.vio: Properties_C19.v Base.vio Fields.vio SrcFacts.vio Msg.vio SrcDecisions.vio Cache.vio Sim.vio Browser.vio BrowserSpec.vio BrowserProofs.vio
-Properties_C19.vos Properties_C19.vok Properties_C19.required_vos: Properties_C19.v Base.vos Fields.vos SrcFacts.vos Msg.vos SrcDecisions.vos Cache.vos Sim.vos Browser.vos BrowserSpec.vos BrowserProofs.vos
+Properties_C19.vo Properties_C19.glob Properties_C19.v.beautified Properties_C19.required_vo: Properties_C19.v Base.vo Fields.vo SrcFacts.vo Msg.vo SrcDecisions.vo Cache.vo Sim.vo SimProofs.vo Browser.vo BrowserSpec.vo BrowserProofs.vo BrowserInv.vo BrowserTimers.vo
+Properties_C19.vio: Properties_C19.v Base.vio Fields.vio SrcFacts.vio Msg.vio SrcDecisions.vio Cache.vio Sim.vio SimProofs.vio Browser.vio BrowserSpec.vio BrowserProofs.vio BrowserInv.vio BrowserTimers.vio
+Properties_C19.vos Properties_C19.vok Properties_C19.required_vos: Properties_C19.v Base.vos Fields.vos SrcFacts.vos Msg.vos SrcDecisions.vos Cache.vos Sim.vos SimProofs.vos Browser.vos BrowserSpec.vos BrowserProofs.vos BrowserInv.vos BrowserTimers.vos
 Properties_C15.vo Properties_C15.glob Properties_C15.v.beautified Properties_C15.required_vo: Properties_C15.v Base.vo Fields.vo SrcFacts.vo Msg.vo SrcDecisions.vo Cache.vo Sim.vo Browser.vo BrowserSpec.vo BrowserProofs.vo
 Properties_C15.vio: Properties_C15.v Base.vio Fields.vio SrcFacts.vio Msg.vio SrcDecisions.vio Cache.vio Sim.vio Browser.vio BrowserSpec.vio BrowserProofs.vio
 Properties_C15.vos Properties_C15.vok Properties_C15.required_vos: Properties_C15.v Base.vos Fields.vos SrcFacts.vos Msg.vos SrcDecisions.vos Cache.vos Sim.vos Browser.vos BrowserSpec.vos BrowserProofs.vos
